@@ -200,7 +200,10 @@ func OpenWithHooks(path string, hooks MultiFileAppendableHooks, opts *Options) (
 		return nil, err
 	}
 
-	fileSize, _ := appendable.NewMetadata(currApp.Metadata()).GetInt(metaFileSize)
+	fileSize, ok := appendable.NewMetadata(currApp.Metadata()).GetInt(metaFileSize)
+	if !ok || fileSize <= 0 {
+		return nil, fmt.Errorf("%w: missing or invalid file size in appendable metadata", ErrIllegalArguments)
+	}
 
 	pCtx, pCancel := context.WithCancel(context.Background())
 	return &MultiFileAppendable{
